@@ -185,6 +185,7 @@ def probe_exact(name, D, N, dt, seed, forced=None):
             extra["inverse_err"] = e3
             ok = ok and e3 <= 2 * tol
     return {"ok": bool(ok), "err": err, "scale": sc, "L": spec.L, "dt": dt, "modes": modes, **extra,
+            "rounding_allowance": float(1e-14 * zmax * sc + 1e-13 * sc * float(np.exp(max(gall, 0.0)))),
             "kwargs": {k: str(v) for k, v in spec.kwargs.items()}}
 
 
@@ -223,7 +224,7 @@ def probe_wave(D, N, dt, seed, L=None):
     sc = max(float(np.max(np.abs(want))), 1e-12)
     err = float(np.max(np.abs(got - want)))
     zmax = abs(c * 2 * np.pi / L * np.sqrt(D) * (N // 2) * dt)
-    return {"ok": bool(err <= (1e-9 + 1e-14 * zmax) * sc), "err": err, "scale": sc, "L": L, "c": c}
+    return {"ok": bool(err <= (1e-9 + 1e-14 * zmax) * sc), "err": err, "scale": sc, "L": L, "c": c, "rounding_allowance": float(1e-14 * zmax * sc)}
 
 
 def oracle(ctx, deep):
